@@ -55,6 +55,16 @@ def required_nullable_names(doc: dict) -> set:
 
     def walk(s: Any) -> None:
         if isinstance(s, dict):
+            if isinstance(s.get("allOf"), list):
+                # `required` may be stated at the allOf level (a property-less member, or next to `allOf`)
+                try:
+                    merged = semgen.merge_all_of(doc, s)
+                except Exception:  # noqa: BLE001
+                    merged = {}
+                for nm in merged.get("required", []):
+                    ps = (merged.get("properties") or {}).get(nm)
+                    if isinstance(ps, dict) and semgen.admits_null(doc, ps):
+                        out.add(nm)
             props = s.get("properties")
             if isinstance(props, dict):
                 for nm in s.get("required", []):
@@ -235,6 +245,10 @@ def run(ck: Check) -> None:
         "the instance corpus of a document = its constructive valid instances + one-step invalid mutations confirmed by jsonschema",
         "only Python 3.12 is available: output for another target version is imported by this interpreter",
     ]
+    # the theorems are about `tr`; tie it to the real parser under all three routings in this check too
+    from .c03 import campaign_model
+
+    campaign_model(ck, 25 if quick else 250, parts=("tr",), fork="c14-stage1")
     campaign_focused(ck)
     campaign_random(ck, 70 if quick else 600)
     ck.search_hooks.append(search)
